@@ -18,7 +18,7 @@ PROPS = {
     "C05": {
         "lean": ["AriVerif.Props.C05"],
         "gen": [],
-        "streams": [s_codec.stream],
+        "streams": [s_codec.stream, s_codec.stream_outbound_tokens],
         "trusted": [KERNEL, HARNESS,
                     "modelled, not verified: CPython's urllib.parse.quote_plus/unquote_plus and str.encode/decode "
                     "(their behaviour is what the differential compares with Ari.quotePlus / Ari.unq)"],
